@@ -106,26 +106,32 @@ KT == <<
 >>
 
 Kinds    == {KT[i].k : i \in DOMAIN KT}
-Idx(k)   == CHOOSE i \in DOMAIN KT : KT[i].k = k
-CatOf(k) == KT[Idx(k)].cat
-SlotOf(k) == KT[Idx(k)].slot
+\* (constant functions: TLC evaluates them once)
+IdxF     == [k \in Kinds |-> CHOOSE i \in DOMAIN KT : KT[i].k = k]
+CatF     == [k \in Kinds |-> KT[IdxF[k]].cat]
+SlotF    == [k \in Kinds |-> KT[IdxF[k]].slot]
+Idx(k)   == IdxF[k]
+CatOf(k) == CatF[k]
+SlotOf(k) == SlotF[k]
 
 \* the partition of the property statement
 PublicCats == {"routing", "hint", "id", "fbtext"}
-Part(k) == CASE CatOf(k) \in PublicCats -> "Public"
-             [] CatOf(k) = "fbmark"     -> "Both"
-             [] OTHER                   -> "Sensitive"
+PartF == [k \in Kinds |-> CASE CatF[k] \in PublicCats -> "Public"
+                            [] CatF[k] = "fbmark"     -> "Both"
+                            [] OTHER                   -> "Sensitive"]
+Part(k) == PartF[k]
 SensitiveKinds == {k \in Kinds : Part(k) = "Sensitive"}
 BothKinds      == {k \in Kinds : Part(k) = "Both"}
 SplitOnly      == {k \in Kinds : CatOf(k) = "fbtext"}   \* not an element of the unsplit message
 
 (* --- mechanism ----------------------------------------------------------- *)
 HeadKinds == {"to", "from", "id", "lang", "error", "addresses"}    \* written / read by toXml / QXmppStanza::parse only
-Block(k) == CASE k \in HeadKinds        -> "head"
-              [] CatOf(k) = "fbtext"    -> "pubonly"
-              [] CatOf(k) = "fbmark"    -> "tail"
-              [] Part(k) = "Public"     -> "pub"
-              [] OTHER                  -> "sens"
+BlockF == [k \in Kinds |-> CASE k \in HeadKinds        -> "head"
+                             [] CatF[k] = "fbtext"     -> "pubonly"
+                             [] CatF[k] = "fbmark"     -> "tail"
+                             [] PartF[k] = "Public"    -> "pub"
+                             [] OTHER                  -> "sens"]
+Block(k) == BlockF[k]
 
 Modes == {"All", "Public", "Sensitive"}
 \* which blocks a (de)serialization in `mode` passes through.  The sensitive part is
